@@ -38,13 +38,18 @@ class _Interp(object):
     def __init__(self, idx, basetype_attr):
         self.idx = idx
         self.bt = basetype_attr
+        self.slot_aliases = set()
 
     def is_bucket_read(self, e):
-        # self.__index[i].get(...)  or self.__index[i][k]
+        # self.__index[i].get(...)  or self.__index[i][k]  (also through a local alias of self.__index[i])
         if isinstance(e, ast.Call) and isinstance(e.func, ast.Attribute) and e.func.attr == "get":
             b = e.func.value
             if isinstance(b, ast.Subscript) and is_self_attr(b.value, self.idx):
                 return True
+            if isinstance(b, ast.Name) and b.id in self.slot_aliases:
+                return True
+        if isinstance(e, ast.Subscript) and isinstance(e.value, ast.Name) and e.value.id in self.slot_aliases:
+            return True
         if isinstance(e, ast.Subscript) and isinstance(e.value, ast.Subscript) and is_self_attr(e.value.value, self.idx):
             return True
         return False
@@ -114,6 +119,9 @@ def rule_r1_r2(repo, col):
     if bt is None:
         raise AnalysisError("ClauseIndex.__init__: base type attribute (OrderedSet) not found")
     it = _Interp(idx, bt)
+    for st in walk_no_nested(f.node):
+        if isinstance(st, ast.Assign) and isinstance(st.targets[0], ast.Name) and isinstance(st.value, ast.Subscript) and is_self_attr(st.value.value, idx):
+            it.slot_aliases.add(st.targets[0].id)
     g = cfgmod.build(f.node)
 
     # state: frozenset of (var, order, alias)
